@@ -52,13 +52,13 @@
            ,(let lp ((ls make-fields) (sets '()))
               (cond
                ((null? ls)
-                `(,_let ((%make (,(rename 'make-constructor)
+                `(,_let ((,(rename '%make) (,(rename 'make-constructor)
                                  ,(symbol->string (identifier->symbol make))
                                  ,name)))
                    (,_lambda ,make-fields
-                     (,_let ((res (%make)))
+                     (,_let ((,(rename 'res) (,(rename '%make))))
                        ,@sets
-                       res))))
+                       ,(rename 'res)))))
                (else
                 (let lp2 ((f fields))
                   (cond
@@ -68,8 +68,8 @@
                     (lp2 (cdr f)))
                    ((pair? (cddr (car f)))
                     (lp (cdr ls)
-                        (cons `(,(car (cddr (car f))) res ,(car ls)) sets)))
+                        (cons `(,(car (cddr (car f))) ,(rename 'res) ,(car ls)) sets)))
                    (else
                     (lp (cdr ls)
-                        (cons `(,_slot-set! ,name res (,_type_slot_offset ,name (,q ,(car ls))) ,(car ls))
+                        (cons `(,_slot-set! ,name ,(rename 'res) (,_type_slot_offset ,name (,q ,(car ls))) ,(car ls))
                               sets))))))))))))))
